@@ -1,8 +1,13 @@
 """C18 — see DESIGN.md §4."""
 from ..spec import run_specs
+from .. import reloc
 
 EXPLANATION = 'RelocateReader overrides exactly the relocatable primitives and takes the offset before the inner read; RelocateWriter overrides exactly the relocatable writers; offset newtypes are built from relocatable reads. Byte identity of relocated output is NOT decided.'
 
 
 def run(rep, ctx):
+    g = ctx.g
     run_specs(rep, ctx, 'C18')
+    reloc.run_relocate_reader(rep, g)
+    reloc.run_relocate_writer(rep, g)
+    reloc.run_R1(rep, g)
